@@ -241,3 +241,44 @@ pub open spec fn all_nonempty(ps: Seq<Seq<u8>>) -> bool { forall|i: int| 0 <= i 
 /// `a == b` on string slices
 #[verifier::external_body]
 pub fn vp_str_eq(a: &str, b: &str) -> (r: bool) ensures r == (a == b) { a == b }
+
+// ---- redirects
+pub uninterp spec fn url_join_spec(base: &Url, reference: Seq<char>) -> Option<Url>;   // RFC 3986 5.2 reference resolution (url crate)
+/// `Url::parse(loc)` failed *because* loc is a relative reference
+pub uninterp spec fn is_relative_ref(loc: Seq<char>) -> bool;
+#[verifier::external_body]
+pub fn vp_url_parse_abs(s: &str) -> (r: std::result::Result<Url, url::ParseError>)
+    ensures
+        (r matches Ok(u) ==> url_parse_spec(s@) == Some(u)) && (r is Err ==> url_parse_spec(s@) is None),
+        (r matches Err(e) ==> (e == url::ParseError::RelativeUrlWithoutBase) == is_relative_ref(s@)),
+{ Url::parse(s) }
+pub assume_specification [Url::join] (u: &Url, s: &str) -> (r: std::result::Result<Url, url::ParseError>)
+    ensures (r matches Ok(j) ==> url_join_spec(u, s@) == Some(j)) && (r is Err ==> url_join_spec(u, s@) is None);
+/// where a redirect leads: the Location as an absolute URL, else resolved against the URL of the request that produced it
+pub open spec fn redirect_target(previous: &Url, location: Seq<char>) -> Option<Url> {
+    match url_parse_spec(location) {
+        Some(u) => Some(u),
+        None => if is_relative_ref(location) { url_join_spec(previous, location) } else { None },
+    }
+}
+pub open spec fn is_followed_status(c: u16) -> bool { c == 301 || c == 302 || c == 303 || c == 307 || c == 308 }
+/// R13: `matches!(status, StatusCode::A | StatusCode::B ..)` with the constants replaced by their numeric codes (table read
+/// from the http crate's source at generation time)
+#[verifier::external_body]
+pub fn vp_status_in_set(s: StatusCode, codes: &[u16]) -> (r: bool)
+    ensures r == codes@.contains(status_u16(s))
+{ codes.contains(&s.as_u16()) }
+pub open spec fn location_name() -> Seq<u8> { seq![108u8,111,99,97,116,105,111,110] }   // "location"
+/// `headers.get(http::header::LOCATION)`: first value of the field
+#[verifier::external_body]
+pub fn vp_get_location(h: &HeaderMap) -> (r: Option<&HeaderValue>)
+    ensures (r matches Some(v) ==> field_vals(h, location_name()).len() > 0 && *v == field_vals(h, location_name())[0])
+         && (r is None ==> field_vals(h, location_name()).len() == 0)
+{ h.get(http::header::LOCATION) }
+pub uninterp spec fn utf8_lossy(b: Seq<u8>) -> Seq<char>;
+pub assume_specification [String::from_utf8_lossy] (b: &[u8]) -> (r: std::borrow::Cow<'_, str>) ensures r@ == utf8_lossy(b@);
+/// `&location` where location: Cow<str> (Deref)
+#[verifier::external_body]
+pub fn vp_cow_str<'a, 'b>(c: &'b std::borrow::Cow<'a, str>) -> (r: &'b str) ensures r@ == c@ { c }
+/// `Instant::now() + timeout`
+#[verifier::external_body] pub fn vp_deadline(t: Duration) -> Instant { Instant::now() + t }
